@@ -345,17 +345,22 @@ Definition composite_of (service : bool) (d : ddef) : res ident :=
 (* _infer_path_to_root_from_first_found(dsdl_path, valid_dsdl_roots)                                           *)
 
 (* INFERENCE 2: first root (in list order) the target is relative to: as pure paths (the root is returned as it was
-   given), or - when at least one of the two is absolute - after resolving both (the resolved root is returned; F13) *)
-Fixpoint strategy2 (cwd : list comp) (target : path) (roots : list path) : option path :=
+   given), or - when at least one of the two is absolute - after resolving both (the resolved root is returned; F13).
+   `resolved` is the resolved target: None for a relative target that does not exist relative to the working directory. *)
+Fixpoint strategy2 (cwd : list comp) (target : path) (resolved : option (list comp)) (roots : list path) : option path :=
   match roots with
   | [] => None
   | r :: rest =>
     match relative_to target r with
     | Some _ => Some r
     | None =>
-      if (is_abs r || is_abs target) && is_prefix (resolve cwd r) (resolve cwd target)
-      then Some (P true (resolve cwd r))
-      else strategy2 cwd target rest
+      match resolved with
+      | Some t =>
+        if (is_abs r || is_abs target) && is_prefix (resolve cwd r) t
+        then Some (P true (resolve cwd r))
+        else strategy2 cwd target resolved rest
+      | None => strategy2 cwd target resolved rest
+      end
     end
   end.
 
@@ -399,7 +404,8 @@ Definition infer_root (fs : fsys) (cwd : list comp) (target : path) (roots : lis
          | c :: _ => if exists_ fs (cwd ++ [c]) then Ok (P false [c]) else Err RInvalid
          end
   | _ =>
-    match strategy2 cwd target roots with
+    let resolved := if is_abs target || exists_ fs (resolve cwd target) then Some (resolve cwd target) else None in
+    match strategy2 cwd target resolved roots with
     | Some r => Ok r
     | None =>
       match (if is_abs target then None else strategy3 fs cwd target roots) with
@@ -416,10 +422,11 @@ Definition infer_root (fs : fsys) (cwd : list comp) (target : path) (roots : lis
 (* from_first_in *)
 Definition from_first_in (fs : fsys) (cwd : list comp) (roots : list path) (target : path) : res ddef :=
   bind (infer_root fs cwd target roots) (fun root_path =>
-  (* a relative target is relative to the same origin as the root (then it lies under the root) or it begins with the
-     name of the root and is relative to the directory that contains the root (F13) *)
-  let file := if is_abs target || is_prefix (resolve cwd root_path) (resolve cwd target)
-              then resolve cwd target
+  (* a relative target is relative to the same origin as the root (then it lies under the root and exists there) or it
+     begins with the name of the root and is relative to the directory that contains the root (F13) *)
+  let here := resolve cwd target in
+  let file := if is_abs target || (is_prefix (resolve cwd root_path) here && exists_ fs here)
+              then here
               else resolve cwd (join (parent root_path) target) in
   mk_definition fs file (resolve cwd root_path)).
 
